@@ -21,6 +21,7 @@ package c16
 import (
 	"bytes"
 	"encoding/binary"
+	"encoding/hex"
 	"fmt"
 	"net/http"
 	"net/http/httptest"
@@ -50,19 +51,13 @@ type SOp struct {
 // "connect" operation at any later point, i.e. also after earlier connections have
 // left; every connect is a new connection with an identity of its own.
 type CaseC struct {
-	NConn  int    `json:"nconn"`
-	Slots  int    `json:"slots,omitempty"` // number of slots (>= NConn); 0 means NConn
-	Ops    []SOp  `json:"ops"`
-	Final  []int  `json:"final"`  // order in which the slots still connected leave at the end
-	Abrupt []bool `json:"abrupt"` // per slot: TCP close without a close frame
+	NConn  int      `json:"nconn"`
+	Slots  int      `json:"slots,omitempty"` // number of slots (>= NConn); 0 means NConn
+	Bases  []string `json:"bases,omitempty"` // bases of the related-name groups for agent types / listener kinds / ExC2 listeners (labels only)
+	Ops    []SOp    `json:"ops"`
+	Final  []int    `json:"final"`  // order in which the slots still connected leave at the end
+	Abrupt []bool   `json:"abrupt"` // per slot: TCP close without a close frame
 }
-
-var (
-	agentPool    = []string{"A1", "A2", "A3"}
-	listenerPool = []string{"L1", "L2"}
-	exc2Pool     = []string{"X1", "X2", "X3", "X4"}
-	magicOf      = map[string]uint32{"A1": 0x41410001, "A2": 0x41410002, "A3": 0x41410003}
-)
 
 const crashSig = "crash|Havoc/pkg/service.(*Service).ClientClose"
 
@@ -70,6 +65,11 @@ const maxSlots = 5
 
 func genC(t *rapid.T) CaseC {
 	c := CaseC{Slots: rapid.IntRange(2, maxSlots).Draw(t, "slots")}
+	ab, agentPool := genNameGroup(t, "agent-names")
+	lb, listenerPool := genNameGroup(t, "kind-names")
+	xb, exc2Pool := genNameGroup(t, "exc2-names")
+	listenerPool = listenerPool[:min(3, len(listenerPool))]
+	c.Bases = []string{ab, lb, xb}
 	c.NConn = rapid.IntRange(0, min(2, c.Slots)).Draw(t, "nconn")
 	on := map[int]bool{}
 	for i := 0; i < c.NConn; i++ {
@@ -161,7 +161,8 @@ type snapC struct {
 	agents, listeners, exc2, endpoints []string
 }
 
-func endpointOf(name string) string { return "ep-" + strings.ToLower(name) }
+// endpointOf: distinct names get distinct endpoints (hex of the name).
+func endpointOf(name string) string { return "ep-" + hex.EncodeToString([]byte(name)) }
 
 func snapshotC(ts *server.Teamserver) snapC {
 	var s snapC
@@ -432,11 +433,11 @@ func checkC(c CaseC) *core.Violation {
 			if a.owner < 0 {
 				continue
 			}
-			if !ts.ServiceAgentExist(int(magicOf[a.name])) {
-				return core.V("svc|disconnect|surviving-agent-type-unknown", "%s: ServiceAgentExist(%#x) is false although connection %d, which registered %q, is still connected", step, magicOf[a.name], a.owner, a.name)
+			if !ts.ServiceAgentExist(int(magicFor(a.name))) {
+				return core.V("svc|disconnect|surviving-agent-type-unknown", "%s: ServiceAgentExist(%#x) is false although connection %d, which registered %q, is still connected", step, magicFor(a.name), a.owner, a.name)
 			}
 			if relayMagic == 0 {
-				relayMagic, relayOwner = magicOf[a.name], a.owner
+				relayMagic, relayOwner = magicFor(a.name), a.owner
 			}
 			routes := []string{"opext"}
 			for _, x := range m.exc2 {
@@ -446,16 +447,16 @@ func checkC(c CaseC) *core.Violation {
 			}
 			for _, ep := range routes {
 				marker++
-				body, data := agentRequest(magicOf[a.name], marker)
+				body, data := agentRequest(magicFor(a.name), marker)
 				code, out, found, done := callEndpoint(ts, ep, body)
 				want := append([]byte(fmt.Sprintf("conn%d|", a.owner)), data...)
 				switch {
 				case !found:
 					continue // endpoint registry already judged above
 				case !done:
-					return core.V("svc|disconnect|surviving-relay-hangs", "%s: an agent request with magic %#x (agent type %q of connection %d) sent into endpoint %q was never answered", step, magicOf[a.name], a.name, a.owner, ep)
+					return core.V("svc|disconnect|surviving-relay-hangs", "%s: an agent request with magic %#x (agent type %q of connection %d) sent into endpoint %q was never answered", step, magicFor(a.name), a.name, a.owner, ep)
 				case code != 200 || !bytes.Equal(out, want):
-					return core.V("svc|disconnect|surviving-relay-broken", "%s: an agent request with magic %#x (agent type %q of connection %d) sent into endpoint %q got %d %q, want 200 %q", step, magicOf[a.name], a.name, a.owner, ep, code, out, want)
+					return core.V("svc|disconnect|surviving-relay-broken", "%s: an agent request with magic %#x (agent type %q of connection %d) sent into endpoint %q got %d %q, want 200 %q", step, magicFor(a.name), a.name, a.owner, ep, code, out, want)
 				}
 			}
 		}
@@ -534,10 +535,7 @@ func checkC(c CaseC) *core.Violation {
 		step := fmt.Sprintf("step %d (%s %s by connection %d in slot %d)", i, op.Op, op.Name, id, op.Conn)
 		switch op.Op {
 		case "agent":
-			if _, ok := magicOf[op.Name]; !ok {
-				continue
-			}
-			cl.RegisterAgent(op.Name, magicOf[op.Name])
+			cl.RegisterAgent(op.Name, magicFor(op.Name))
 			if err := cl.Barrier(); err != nil {
 				return inconclusive("barrier: %v", err)
 			}
@@ -680,6 +678,19 @@ func classifyC(c CaseC) core.Class {
 				dups++
 				cl.Labels = append(cl.Labels, "register:name-taken")
 			} else {
+				bi := map[string]int{"agent": 0, "listener": 1, "exc2": 2}[op.Op]
+				if bi < len(c.Bases) {
+					var others []string
+					for k := range owners {
+						if strings.HasPrefix(k, op.Op+"/") {
+							others = append(others, strings.TrimPrefix(k, op.Op+"/"))
+						}
+					}
+					sort.Strings(others)
+					for _, o := range others {
+						cl.Labels = append(cl.Labels, relationLabel(c.Bases[bi], op.Name, o))
+					}
+				}
 				owners[key] = id
 				perConn[id]++
 				if op.Op == "exc2" {
